@@ -53,6 +53,19 @@ fn check_prim(case: &Case, obs: &mut Obs) {
         if m != moved {
             obs.fail("translate_mut==translate", format!("{:?} vs {:?}", m, moved));
         }
+        // an already moved object moved again (and moved back): the second move starts from a non-initial object
+        let e = Point::new(-5, 9);
+        let twice = moved.translate(e);
+        let mut twice_mut = moved;
+        twice_mut.translate_mut(e);
+        let direct = s.translate(d + e);
+        if (twice != direct && render(&twice) != shift_map(&want, e.x, e.y)) || (twice_mut != direct && render(&twice_mut) != shift_map(&want, e.x, e.y)) {
+            obs.fail("draw(translate(d))==shift(draw,d)", format!("moved by {:?}, then by {:?}: {:?} / {:?} instead of {:?}", case.d, (e.x, e.y), twice, twice_mut, direct));
+        }
+        let back = moved.translate(Point::zero() - d);
+        if back != s && render(&back) != base {
+            obs.fail("draw(translate(d))==shift(draw,d)", format!("moved by {:?} and back: {:?} instead of {:?}", case.d, back, s));
+        }
         let bb = s.bounding_box();
         if !bb.is_zero_sized() {
             let tb = moved.bounding_box();
@@ -173,6 +186,29 @@ fn check_text(case: &TCase, obs: &mut Obs) {
     if m != moved {
         obs.fail("translate_mut==translate", "text".to_string());
     }
+    // moved again from the moved place, and moved back
+    let e = Point::new(-5, 9);
+    let twice = moved.translate(e);
+    let mut twice_mut = moved;
+    twice_mut.translate_mut(e);
+    if twice != t.translate(d + e) || twice_mut != twice {
+        let mut c2 = RecD::<C>::new();
+        let r2 = twice.draw(&mut c2).unwrap();
+        let mut c3 = RecD::<C>::new();
+        let r3 = twice_mut.draw(&mut c3).unwrap();
+        let w2 = shift_map(&want, e.x, e.y);
+        if c2.map != w2 || c3.map != w2 || r2 != ra + d + e || r3 != r2 {
+            obs.fail("draw(translate(d))==shift(draw,d)", format!("text moved by {:?} and then by {:?}", case.d, (e.x, e.y)));
+        }
+    }
+    let back = moved.translate(Point::zero() - d);
+    if back != t {
+        let mut c2 = RecD::<C>::new();
+        let r2 = back.draw(&mut c2).unwrap();
+        if c2.map != a.map || r2 != ra {
+            obs.fail("draw(translate(d))==shift(draw,d)", format!("text moved by {:?} and back", case.d));
+        }
+    }
     let bb = t.bounding_box();
     if !bb.is_zero_sized() {
         let tb = moved.bounding_box();
@@ -237,6 +273,22 @@ where
     m.draw(&mut c).unwrap();
     if c.map != b.map || m.bounding_box() != moved.bounding_box() {
         obs.fail("translate_mut==translate", "image".to_string());
+    }
+    // moved again from the moved place (both ways), and moved back
+    {
+        let e = Point::new(-5, 9);
+        let w2 = shift_map(&want, e.x, e.y);
+        let mut c2 = RecD::<I::Color>::new();
+        moved.translate(e).draw(&mut c2).unwrap();
+        let mut mm = m;
+        mm.translate_mut(e);
+        let mut c3 = RecD::<I::Color>::new();
+        mm.draw(&mut c3).unwrap();
+        let mut c4 = RecD::<I::Color>::new();
+        moved.translate(Point::zero() - d).draw(&mut c4).unwrap();
+        if c2.map != w2 || c3.map != w2 || c4.map != a.map {
+            obs.fail("draw(translate(d))==shift(draw,d)", format!("image moved by {:?} and then by {:?} / back", case.d, (e.x, e.y)));
+        }
     }
     if !bb.is_zero_sized() {
         let tb = moved.bounding_box();
